@@ -937,13 +937,24 @@ impl AstNode for UtxoRef {
     const RULE: Rule = Rule::utxo_ref;
 
     fn parse(pair: Pair<Rule>) -> Result<Self, Error> {
-        let span = pair.as_span().into();
-        let raw_ref = pair.as_span().as_str()[2..].to_string();
-        let (raw_txid, raw_output_ix) = raw_ref.split_once("#").expect("Invalid utxo ref");
+        let span: Span = pair.as_span().into();
+        let raw = pair.as_str();
+
+        let invalid = |what: &str| Error {
+            message: format!("invalid utxo ref: {what}"),
+            src: raw.to_string(),
+            span: Span::new(0, raw.len()),
+        };
+
+        let (raw_txid, raw_output_ix) = raw[2..]
+            .split_once('#')
+            .ok_or_else(|| invalid("missing output index"))?;
 
         Ok(UtxoRef {
-            txid: hex::decode(raw_txid).expect("Invalid hex txid"),
-            index: raw_output_ix.parse().expect("Invalid output index"),
+            txid: hex::decode(raw_txid).map_err(|_| invalid("tx id is not valid hex"))?,
+            index: raw_output_ix
+                .parse()
+                .map_err(|_| invalid("output index out of range"))?,
             span,
         })
     }
